@@ -128,3 +128,37 @@ Proof.
   rewrite (clause_text_custom obj field echo (label m) _ (custom_clause_text obj field echo m)).
   rewrite <- !app_assoc. reflexivity.
 Qed.
+
+(* ---------- GetJoinFieldErr (valid/common.go): the clause of a rule that cannot be read ---------- *)
+Definition field_err_text (obj field : str) (err : pv) : str :=
+  quoted_prefix (field_path obj field) ++ (match err with PS t | PE t => t | _ => [] end) ++ ErrEndFlag.
+
+Ltac estep :=
+  lazy beta iota zeta delta
+    [run_field_err pexec pexec_list peval pset pempty fn_body fn_GetJoinFieldErr
+     String.eqb Ascii.eqb Bool.eqb andb orb negb existsb];
+  cbn [str_eqb].
+
+Theorem field_err_from_source obj field :
+  (forall t, run_field_err fn_GetJoinFieldErr obj field (PS t) = Some (field_err_text obj field (PS t))) /\
+  (forall t, run_field_err fn_GetJoinFieldErr obj field (PE t) = Some (field_err_text obj field (PE t))) /\
+  run_field_err fn_GetJoinFieldErr obj field PO = Some (field_err_text obj field PO).
+Proof.
+  unfold field_err_text, quoted_prefix, field_path, nonempty.
+  repeat split; intros; destruct obj as [|a obj]; destruct field as [|f field]; estep;
+    cbn [andb app]; unfold DQ, DOT; repeat (progress (cbn [app]; rewrite <- ?app_assoc)); reflexivity.
+Qed.
+
+(* the clause of a known field error (Model/Clause.v) is this text without the trailing separator *)
+Lemma clause_text_field obj field t :
+  clause_text (CField obj field (FKnown t)) = Some (quoted_prefix (field_path obj field) ++ t) /\
+  run_field_err fn_GetJoinFieldErr obj field (PS t) = Some ((quoted_prefix (field_path obj field) ++ t) ++ ErrEndFlag).
+Proof.
+  split; [reflexivity|]. rewrite (proj1 (field_err_from_source obj field) t).
+  unfold field_err_text. rewrite <- app_assoc. reflexivity.
+Qed.
+Lemma field_err_nonempty obj field err : field_err_text obj field err <> [].
+Proof.
+  unfold field_err_text. intros H. apply app_eq_nil in H. destruct H as [_ H]. apply app_eq_nil in H. destruct H as [_ H].
+  discriminate H.
+Qed.
